@@ -121,6 +121,10 @@ pub open spec fn dch_post(i: Seq<u8>, r: IResult<&[u8], DTLSMessageHandshakeBody
                         && opt_ext_ok(i, om + ml, h.ext, rem@),
                     _ => false } } } } }
 }
+pub open spec fn cke_post(i: Seq<u8>, len: int, r: IResult<&[u8], TlsClientKeyExchangeContents>) -> bool {
+    if i.len() < len { is_incomplete(r) }
+    else { match r { Ok((rem, TlsClientKeyExchangeContents::Unknown(b))) => b@ =~= i.subrange(0, len) && rem@ =~= i.subrange(len, i.len() as int), _ => false } }
+}
 // a body that is one opaque blob of the declared length (ServerKeyExchange, ServerDone, CertificateVerify, Finished,
 // ClientKeyExchange): exactly `len` bytes, the rest is remainder, a short body is Incomplete
 pub open spec fn blob_post(i: Seq<u8>, len: int, r: IResult<&[u8], TlsMessageHandshake>, get: spec_fn(TlsMessageHandshake) -> Option<Seq<u8>>) -> bool {
@@ -234,6 +238,31 @@ UNIT = {
         blob("parse_tls_handshake_msg_serverdone", "ServerDone"),
         blob("parse_tls_handshake_msg_certificateverify", "CertificateVerify"),
         blob("parse_tls_handshake_msg_finished", "Finished"),
+        # ClientKeyExchange: a function RETURNING the parser closure.  R17: return type `impl FnMut` -> `impl Fn` (the closure
+        # captures `len` by copy and mutates nothing: rustc accepts the same body at the stronger type); R9/R10 for the closures
+        {"file": F_HS, "kind": "fn", "name": "parse_tls_clientkeyexchange", "returns": "f",
+         "subst": [
+             (r"pub\(crate\) fn parse_tls_clientkeyexchange\(\s*len: usize,\s*\) -> impl FnMut\(&\[u8\]\) -> IResult<&\[u8\], TlsClientKeyExchangeContents>",
+              "pub fn parse_tls_clientkeyexchange<'a>(len: usize) -> impl Fn(&'a [u8]) -> IResult<&'a [u8], TlsClientKeyExchangeContents<'a>>"),
+             (r"move \|i\| map\(take\(len\), TlsClientKeyExchangeContents::Unknown\)\(i\)",
+              "move |i: &'a [u8]| -> (r2: IResult<&'a [u8], TlsClientKeyExchangeContents<'a>>) ensures cke_post(i@, len as int, r2) { map(take(len), |x: &'a [u8]| -> (y: TlsClientKeyExchangeContents<'a>) ensures y == TlsClientKeyExchangeContents::Unknown(x) { TlsClientKeyExchangeContents::Unknown(x) })(i) }"),
+         ],
+         "contract": """    ensures forall|i: &'a [u8]| #[trigger] f.requires((i,)),
+        forall|i: &'a [u8], r: IResult<&'a [u8], TlsClientKeyExchangeContents<'a>>| #[trigger] f.ensures((i,), r) ==> cke_post(i@, len as int, r),"""},
+        {"file": F_HS, "kind": "fn", "name": "parse_tls_handshake_msg_clientkeyexchange",
+         "subst": [
+             (r"fn parse_tls_handshake_msg_clientkeyexchange\(\s*i: &\[u8\],\s*len: usize,\s*\) -> IResult<&\[u8\], TlsMessageHandshake>",
+              "fn parse_tls_handshake_msg_clientkeyexchange<'a>(i: &'a [u8], len: usize) -> IResult<&'a [u8], TlsMessageHandshake<'a>>"),
+             (r"TlsMessageHandshake::ClientKeyExchange,", "|x: TlsClientKeyExchangeContents<'a>| -> (y: TlsMessageHandshake<'a>) ensures y == TlsMessageHandshake::ClientKeyExchange(x) { TlsMessageHandshake::ClientKeyExchange(x) },"),
+         ],
+         "contract": "    ensures blob_post(i@, len as int, r, |m: TlsMessageHandshake| match m { TlsMessageHandshake::ClientKeyExchange(TlsClientKeyExchangeContents::Unknown(b)) => Some(b@), _ => None }),"},
+        {"file": F_HS, "kind": "fn", "name": "parse_tls_handshake_msg_key_update",
+         "subst": [
+             (r"fn parse_tls_handshake_msg_key_update\(i: &\[u8\]\) -> IResult<&\[u8\], TlsMessageHandshake>", "fn parse_tls_handshake_msg_key_update<'a>(i: &'a [u8]) -> IResult<&'a [u8], TlsMessageHandshake<'a>>"),
+             (r"map\(be_u8, TlsMessageHandshake::KeyUpdate\)", "map(be_u8, |x: u8| -> (y: TlsMessageHandshake<'a>) ensures y == TlsMessageHandshake::KeyUpdate(x) { TlsMessageHandshake::KeyUpdate(x) })"),
+         ],
+         "splices": [{"at_start": True, "text": "    proof { reveal_with_fuel(be_val, 2); }"}],
+         "contract": "    ensures i@.len() < 1 ==> is_incomplete(r), i@.len() >= 1 ==> (r is Ok && r->Ok_0.1 == TlsMessageHandshake::KeyUpdate(i@[0]) && r->Ok_0.0@ =~= i@.subrange(1, i@.len() as int)),"},
         {"file": F_HS, "kind": "fn", "name": "parse_tls_handshake_server_hello",
          "splices": [{"at_start": True, "text": "    proof { reveal_with_fuel(be_val, 3); }"}],
          "contract": "    ensures sh_post(i@, r),"},
